@@ -971,18 +971,36 @@ fn eval_on_views(judge: &Judge, views: &[Arc<LiveView>], keys: &[KeySpec]) -> Ca
             *s = Some(keys.to_vec());
         }
     }
+    // first pass over all views; revived views whose range is still being recomputed (3 s timer) get ONE common
+    // grace period afterwards and are evaluated again: only a failure that is still there counts
+    let mut evs: Vec<Option<ViewEval>> = vec![];
+    let mut again = false;
     for v in views {
+        if status_verdict(v).is_some() {
+            evs.push(None);
+            continue;
+        }
+        let ev = rt.block_on(eval_view(&v.exist, &v.alive, &v.nodes, &v.addr_id, keys));
+        if v.spec.revive && !ev.failures.is_empty() {
+            again = true;
+        }
+        evs.push(Some(ev));
+    }
+    if again {
+        rt.block_on(async { tokio::time::sleep(Duration::from_millis(3500)).await });
+    }
+    for (i, v) in views.iter().enumerate() {
         if let Some(sv) = status_verdict(v) {
             if !matches!(verdict, Verdict::Violation(_)) {
                 verdict = sv;
             }
             continue;
         }
-        let mut ev = rt.block_on(eval_view(&v.exist, &v.alive, &v.nodes, &v.addr_id, keys));
+        let mut ev = match evs[i].take() {
+            Some(e) => e,
+            None => continue,
+        };
         if v.spec.revive && !ev.failures.is_empty() {
-            // a range of a revived view is recomputed by a 3 s timer: only a failure that is still
-            // there one more tick later counts (one-sided window)
-            rt.block_on(tokio::time::sleep(Duration::from_millis(3500)));
             ev = rt.block_on(eval_view(&v.exist, &v.alive, &v.nodes, &v.addr_id, keys));
         }
         if let Some(h) = v.health.lock().ok().and_then(|h| h.clone()) {
